@@ -23,7 +23,7 @@ TRUSTED = ["Nsl/Model/Overload.lean mirrors IsCompatible / Match / Function.Matc
 SMALL = [("s", "int"), ("s", "uint"), ("s", "float"), ("v", "int", 2), ("v", "float", 2)]
 LARGE = SMALL + [("v", "float", 3), ("m", "float", 3, 3), ("m", "float", 4, 4)]
 NSL_NAME = {("s", "int"): "int", ("s", "uint"): "uint", ("s", "float"): "float", ("v", "int", 2): "int2", ("v", "float", 2): "float2",
-            ("v", "float", 3): "float3", ("m", "float", 3, 3): "float3x3", ("m", "float", 4, 4): "float4x4"}
+            ("v", "float", 3): "float3", ("v", "int", 3): "int3", ("m", "float", 3, 3): "float3x3", ("m", "float", 4, 4): "float4x4"}
 
 
 def tstr(t):
@@ -137,14 +137,32 @@ def spec_resolve(scopes, name, args):
     return "unknown"
 
 
-def e2e_source(sigs, args):
-    """sigs: list of param tuples over int/float; overload i returns the constant 10+i."""
+def e2e_source(sigs, args, caller_pos=None):
+    """sigs: list of param tuples; overload i returns the constant 10+i.  caller_pos: where the calling function is declared
+    among the overloads (None/len = after all of them, 0 = before all): the resolution must not depend on it."""
     fs = []
     for i, params in enumerate(sigs):
         fs.append("function g(%s) -> int { return %d; }" % (", ".join("%s p%d" % (NSL_NAME[p], j) for j, p in enumerate(params)), 10 + i))
-    fs.append("export function f(%s) -> int { return g(%s); }" % (", ".join("%s a%d" % (NSL_NAME[a], j) for j, a in enumerate(args)),
-                                                                   ", ".join("a%d" % j for j in range(len(args)))))
+    caller = "export function f(%s) -> int { return g(%s); }" % (", ".join("%s a%d" % (NSL_NAME[a], j) for j, a in enumerate(args)),
+                                                                 ", ".join("a%d" % j for j in range(len(args))))
+    fs.insert(len(fs) if caller_pos is None else caller_pos, caller)
     return "\n".join(fs) + "\n"
+
+
+def e2e_source2(sigs, args1, args2):
+    """two calls of the same name with different argument types in one module: f returns 100 * g(first) + g(second)"""
+    fs = []
+    for i, params in enumerate(sigs):
+        fs.append("function g(%s) -> int { return %d; }" % (", ".join("%s p%d" % (NSL_NAME[p], j) for j, p in enumerate(params)), 10 + i))
+    ps = ["%s a%d" % (NSL_NAME[a], j) for j, a in enumerate(args1)] + ["%s b%d" % (NSL_NAME[a], j) for j, a in enumerate(args2)]
+    fs.append("export function f(%s) -> int { return g(%s) * 100 + g(%s); }" % (", ".join(ps), ", ".join("a%d" % j for j in range(len(args1))),
+                                                                                ", ".join("b%d" % j for j in range(len(args2)))))
+    return "\n".join(fs) + "\n"
+
+
+def arg_value(a):
+    if a[0] == "v": return [1.5 if a[1] == "float" else 3] * a[2]
+    return 1.5 if a[1] == "float" else 3
 
 
 def e2e_run(src, args):
@@ -154,7 +172,8 @@ def e2e_run(src, args):
         with implrun.quiet():
             prog = implrun.link([st[1].IRModule])
             vm = implrun.new_vm(prog)
-            kw = {"a%d" % j: (1.5 if a[1] == "float" else 3) for j, a in enumerate(args)}
+            if isinstance(args, dict): kw = {k: arg_value(a) for k, a in args.items()}
+            else: kw = {"a%d" % j: arg_value(a) for j, a in enumerate(args)}
         r = implrun.invoke(vm, "f", kw)
     except Exception as e:
         return "crash:%s:%s" % implrun.exc_site(e)[:2]
@@ -212,6 +231,34 @@ def explore(run, widen=1):
                          "the call in\n%s returns %r, the rule gives %r" % (src, got, exp),
                          key="e2e:" + ("crash" if str(got).startswith("crash") else "wrong-function" if isinstance(got, int) and isinstance(exp, int)
                                        else "accepts" if isinstance(got, int) else "rejects"))
+
+
+    # ---- the position of the caller among the overloads must not matter; nor must an earlier call of the same name
+    for combo in [c for c in pairs if len(c) >= 2]:
+        for args in S2:
+            want = spec_best([("g", p) for p in combo], "g", args)
+            exp = (10 + want[1]) if not isinstance(want, str) else "reject"
+            for pos in range(len(combo)):
+                src = e2e_source(combo, args, caller_pos=pos)
+                got = e2e_run(src, args)
+                run.case(("e2e-pos", combo, args, pos), nontrivial=True); run.count("e2e-caller-position")
+                if got != exp:
+                    run.fail("e2e", dict(source=src, args=[tstr(a) for a in args], expected=exp),
+                             "with the caller declared at position %d the call in\n%s returns %r, the rule gives %r" % (pos, src, got, exp), key="e2e:caller-position")
+    V = [("v", "int", 2), ("v", "float", 2), ("v", "float", 3), ("v", "int", 3), ("s", "int"), ("s", "float")]
+    vs = [(a,) for a in V]
+    sets = [c for c in itertools.combinations(vs, 2)] + [c for c in itertools.combinations(vs, 3)]
+    if run.tier != "thorough": sets = run.rng.sample(sets, 14)
+    for combo in sets:
+        for a1, a2 in itertools.product(vs, repeat=2):
+            w1, w2 = spec_best([("g", p) for p in combo], "g", a1), spec_best([("g", p) for p in combo], "g", a2)
+            exp = "reject" if isinstance(w1, str) or isinstance(w2, str) else (10 + w1[1]) * 100 + (10 + w2[1])
+            src = e2e_source2(combo, a1, a2)
+            got = e2e_run(src, {"a0": a1[0], "b0": a2[0]})
+            run.case(("e2e-two", combo, a1, a2), nontrivial=True); run.count("e2e-two-calls")
+            if got != exp:
+                run.fail("e2e", dict(source=src, args=[tstr(a1[0]), tstr(a2[0])], expected=exp),
+                         "two calls in one module:\n%s returns %r, the rule gives %r" % (src, got, exp), key="e2e:two-calls")
 
 
 def split2(a):
